@@ -81,15 +81,15 @@ class AsyncPolicy:
     ) -> T:
         ctx = ExecutionContext.create(self.circuit_breaker, on_metric, on_log, operation)
 
-        # Pre-flight abort check (no retry configured)
-        if self.retry is None and check_abort_no_retry(ctx, abort_if):
-            raise AbortRetryError()
-
         # Circuit breaker check
         check_breaker(ctx)
 
         try:
             if self.retry is None:
+                # Pre-flight abort check (no retry configured). Done after admission so that
+                # a call the breaker never admitted cannot release another call's probe slot.
+                if check_abort_no_retry(ctx, abort_if):
+                    raise AbortRetryError()
                 result = await self._call_without_retry(ctx, func, on_attempt_start, on_attempt_end)
             else:
                 result = await self.retry.call(
@@ -158,6 +158,9 @@ class AsyncPolicy:
         on_end: AttemptHook | None,
     ) -> None:
         """Handle AbortRetryError in call mode."""
+        if ctx.settled:
+            # Pre-flight abort: already recorded, and no attempt was started.
+            return
         if self.retry is None and on_end is not None:
             on_end(
                 make_attempt_context(
@@ -222,10 +225,6 @@ class AsyncPolicy:
     ) -> RetryOutcome[T]:
         ctx = ExecutionContext.create(self.circuit_breaker, on_metric, on_log, operation)
 
-        # Pre-flight abort check (no retry configured)
-        if self.retry is None and check_abort_no_retry(ctx, abort_if):
-            return build_aborted_outcome(ctx)
-
         # Circuit breaker check
         try:
             check_breaker(ctx)
@@ -233,6 +232,11 @@ class AsyncPolicy:
             return build_circuit_open_outcome(ctx, exc.state)
 
         try:
+            # Pre-flight abort check (no retry configured). Done after admission so that
+            # a call the breaker never admitted cannot release another call's probe slot.
+            if self.retry is None and check_abort_no_retry(ctx, abort_if):
+                return build_aborted_outcome(ctx)
+
             # Delegate to retry if configured
             if self.retry is not None:
                 return await self._execute_with_retry(
